@@ -149,6 +149,14 @@ fn translate_block(
         // slot, return. We always want to have enough bytes to handle a delay
         // slot.
         if offset >= bytes.len() {
+            // a branch whose delay slot is not in the buffer cannot be lifted
+            if matches!(
+                branch_delay,
+                TranslateBranchDelay::DelaySlot(..)
+                    | TranslateBranchDelay::DelaySlotFallThrough(..)
+            ) {
+                return Err("MIPS branch is missing its delay slot".into());
+            }
             successors.push((address + offset as u64, None));
             break;
         }
